@@ -252,6 +252,118 @@ theorem composed_disk_dominates (e : Node04.Env) (c : Cons.Cfg) (sigOf : SB → 
   rw [hes] at hr ⊢
   exact (disk_dominates_released sigOf l hl es r hr).1
 
+/-- **The signer inside the consensus model is the FilePV.** `Tmv.Cons.sign` (C02's mirror of
+CheckHRS at the level (round, step, payload), on which `Props.C02.one_per_step` rests) and one
+complete call of the real signer machine agree: on an idle signer whose state file is of a lower
+height or holds a request of this height (`Node04.Good`) and whose abstraction is the model's
+`lss`, the abstract signer releases a signature iff the real call returns one, the new states
+correspond again, and an abstract refusal is an error answer that changes nothing. -/
+theorem abstract_signer_is_filepv {e : Node04.Env} (he : Node04.EnvOK e) {c : Cons.Cfg}
+    (hc : c.checkHRS = true) (sigOf : SB → Sig) (disk : LSS Sig) (rel : List (Rel Sig))
+    (hg : Node04.Good e disk) (s : Cons.NodeState) (hs : s.lss = e.absLss disk)
+    (o : Cons.Output) (round code : Nat) (p : Cons.Payload) (hk : Cons.sigKey o = some (round, code, p))
+    (t : Int) (q : Req) (hq : e.reqOf t o = some q) :
+    (∀ s', Cons.sign c s round code p = some s' →
+      ∃ disk' rel' sb sig, call sigOf ⟨disk, disk, .idle, rel⟩ q none = (⟨disk', disk', .idle, rel'⟩, .ok sb sig) ∧
+        s'.lss = e.absLss disk' ∧ Node04.Good e disk') ∧
+    (Cons.sign c s round code p = none →
+      ∃ er, call sigOf ⟨disk, disk, .idle, rel⟩ q none = (⟨disk, disk, .idle, rel⟩, .err er)) :=
+  Node04.sign_refines he hc sigOf disk rel hg s hs o round code p hk t q hq
+
+/-- **A re-proposal that differs is refused.** `createProposalBlock` reads the mempool, which is not
+in the WAL, so after a crash the proposer may build another block (`c.ownBlock` differs) or see
+another valid round. If the proposal of round `r` reached the state file (`hdisk`), then after any
+further signer history a proposal request for the same height and round is answered with the
+persisted message and signature when block and POL round are the same, and refused with
+"conflicting data" otherwise — never a second signature. -/
+theorem replayed_proposal_refused_or_same {e : Node04.Env} (he : Node04.EnvOK e) (sigOf : SB → Sig)
+    (l : LSS Sig) (hl : WF l) (es : List Ev) (hidle : (run sigOf (init l) es).pc = .idle)
+    (r b : Nat) (pol : Int) (t0 : Int) (lsb : SB) (g : Sig)
+    (hlsb : e.sbOf t0 (.signProposal r b pol) = some lsb)
+    (hdisk : (run sigOf (init l) es).disk.sb = some lsb) (hdsig : (run sigOf (init l) es).disk.sig = some g)
+    (b' : Nat) (pol' : Int) (t : Int) (q : Req) (hq : e.reqOf t (.signProposal r b' pol') = some q) :
+    (b' = b ∧ pol' = pol ∧ ∃ sb, call sigOf (run sigOf (init l) es) q none =
+        ({ run sigOf (init l) es with rel := ⟨sb, lsb, g⟩ :: (run sigOf (init l) es).rel }, .ok lsb g)) ∨
+    ((b' ≠ b ∨ pol' ≠ pol) ∧
+      call sigOf (run sigOf (init l) es) q none = (run sigOf (init l) es, .err .conflict)) := by
+  have inv := inv_run sigOf (inv_init hl) es
+  generalize run sigOf (init l) es = c at *
+  obtain ⟨disk, mem, pc, rel⟩ := c
+  simp only at hidle hdisk hdsig
+  subst hidle
+  have hm : mem = disk := inv.pc
+  subst hm
+  have hk : Cons.sigKey (.signProposal r b pol) = some (r, 1, .prop b pol) := rfl
+  have hk' : Cons.sigKey (.signProposal r b' pol') = some (r, 1, .prop b' pol') := rfl
+  obtain ⟨hst, hqh, hqr⟩ := Node04.reqStep_reqOf hq hk'
+  have hsbq : signBytes q = e.sbOf t (.signProposal r b' pol') := Node04.signBytes_reqOf he hq
+  obtain ⟨_, hh, hr, hstp⟩ := Node04.payloadOf_sbOf he hlsb hk
+  have hHRS : lssHRS mem = (q.h, q.r, ((1 : Nat) : Int)) := by
+    rw [← inv.wf lsb hdisk]
+    simp [hrsOf, hh, hr, hstp, hqh, hqr]
+  have hchk := checkHRS_eq_same hHRS hdisk hdsig
+  have hcall := Node04.call_same sigOf mem rel q _ _ lsb g hst hchk hsbq hdisk hdsig
+  have hiff := Node04.sbOf_eqModTs he hlsb (rfl : e.sbOf t (.signProposal r b' pol') = some _) hk hk'
+  by_cases hp : Cons.Payload.prop b pol = Cons.Payload.prop b' pol'
+  · have hts := hiff.2 hp
+    injection hp with h1 h2
+    exact Or.inl ⟨h1.symm, h2.symm, _, by rw [hcall, if_pos hts]⟩
+  · have hts : ¬ _ := fun h => hp (hiff.1 h)
+    refine Or.inr ⟨?_, by rw [hcall, if_neg hts]⟩
+    by_cases hb : b' = b
+    · right; intro hpo; exact hp (by rw [hb, hpo])
+    · exact Or.inl hb
+
+/-- **What is asked again (determinism of the consensus model over the replayed inputs).** With the
+consensus model as the core (`Node04.consCore`: round state from `NodeState.init`, abstract signer
+starting at any `lss0`), every signing request the node issued before a crash is re-issued by
+replaying any surviving WAL, while handling the same record, identical up to its timestamp. -/
+theorem replay_reissues_cons_requests (e : Node04.Env) (c : Cons.Cfg) (lss0 : Option (Nat × Nat × Cons.Payload))
+    (ins : List (Cons.Input × Int)) (w : List Cons.Input)
+    (hw : SignNode.Survives (SignNode.runNode (Node04.consCore e c lss0) (SignNode.start (Node04.consCore e c lss0)) ins) w)
+    (j : Nat) (q : Req)
+    (hq : (j, q) ∈ (SignNode.runNode (Node04.consCore e c lss0) (SignNode.start (Node04.consCore e c lss0)) ins).log) :
+    j < w.length ∧ ∃ q0 ∈ SignNode.reqsAt (Node04.consCore e c lss0) w j, q = SignNode.stamp q.ts q0 :=
+  replay_reissues_requests _ ins w hw j q hq
+
+/-- **Replay restores the round state (C15's round-state clause, model level).** For the consensus
+model with a fixed signer start: replaying the records that survived a crash (any prefix of the
+written inputs containing the synced ones; by `SignNode.survives_of_durable` that is what
+`Props.C15.durable_returned` leaves) from the initial round state yields exactly the state — height
+round, step, lock, valid block, proposal, vote sets, last sign state, everything in
+`Cons.NodeState` — the node had when it had handled exactly those records, i.e.
+`Cons.run c init survivors`.
+
+What this does NOT say (and the node rig checks on the real code instead): in the real WAL the
+node's own proposal/votes are records too and are replayed from the WAL while the signer, whose
+file is AHEAD of the replayed prefix, refuses the older requests (`replay_requests_match`); here
+own messages are re-derived inside `Cons.step` by an abstract signer that starts from the same
+`lss0` as before the crash. That the round state does not depend on which of the two supplies the
+own message is not proved. -/
+theorem replay_restores (e : Node04.Env) (c : Cons.Cfg) (lss0 : Option (Nat × Nat × Cons.Payload))
+    (ins : List (Cons.Input × Int)) (w : List Cons.Input)
+    (hw : SignNode.Survives (SignNode.runNode (Node04.consCore e c lss0) (SignNode.start (Node04.consCore e c lss0)) ins) w) :
+    Cons.run c { Cons.NodeState.init with lss := lss0 } w =
+      (SignNode.runNode (Node04.consCore e c lss0) (SignNode.start (Node04.consCore e c lss0)) (ins.take w.length)).s := by
+  have inv := SignNode.ninv_run (Node04.consCore e c lss0) (SignNode.ninv_start (Node04.consCore e c lss0)) (ins.take w.length)
+  have hwal : (SignNode.runNode (Node04.consCore e c lss0) (SignNode.start (Node04.consCore e c lss0)) (ins.take w.length)).wal = w := by
+    rw [SignNode.runNode_wal]
+    obtain ⟨⟨rest, hr⟩, _⟩ := hw
+    rw [SignNode.runNode_wal] at hr
+    simp only [SignNode.start, List.nil_append] at hr ⊢
+    rw [List.map_take, ← hr, List.take_left']
+    rfl
+  rw [inv.state, hwal]
+  have key : ∀ (s0 : Cons.NodeState) (w : List Cons.Input),
+      Cons.run c s0 w = SignNode.runCore (Node04.consCore e c lss0) s0 w := by
+    intro s0 w
+    induction w generalizing s0 with
+    | nil => rfl
+    | cons i w ih =>
+      show Cons.run c (Cons.step c s0 i) w = _
+      exact ih _
+  exact key _ w
+
 /-! ### the driver's `call` (one op line) is a run of the machine, so every op-line history the
 correspondence stream exercises is covered by the theorems above -/
 
@@ -330,6 +442,29 @@ example : exNode.log = [(1, exReq 11)] ∧ exNode.synced = 2 ∧ exNode.wal.leng
 example : SignNode.Survives exNode [false, true] := ⟨⟨[false], rfl⟩, by decide⟩
 example : SignNode.Survives exNode [false, true, false] := ⟨⟨[], rfl⟩, by decide⟩
 example : ¬ SignNode.Survives exNode [false] := fun h => absurd h.2 (by decide)
+
+/-- environment and configuration for the composed theorems: height 1, a single validator that
+proposes block 7 -/
+def exEnv : Node04.Env :=
+  { H := 1, chain := "c", blk := fun b => ⟨List.replicate 32 1, (b : Int) + 1, List.replicate 32 0xcc⟩,
+    unblk := fun bid => (bid.total - 1).toNat }
+def exCfg : Cons.Cfg :=
+  { n := 1, power := fun _ => 1, self := some 0, proposer := fun _ => 0, valid := fun _ => true, ownBlock := 7,
+    waitForTxs := false, needProofBlock := false, emptyInterval := false, checkHRS := true }
+example : Node04.EnvOK exEnv :=
+  ⟨fun b => by simp [exEnv, bidValid, validHash, hashSize],
+   fun b => by simp [exEnv, bidIsZero],
+   fun b => by simp [exEnv]⟩
+example : Node04.Good exEnv (genesis : LSS SB) := Or.inl (by decide)
+/-- the node dies after the rename of its proposal's sign state (time 10); replay at time 20 gets
+the persisted proposal signature back (message time 10) and goes on to prevote and precommit;
+after another crash the replayed proposal request is below the state file and refused: the
+journal does not grow -/
+def exComposed : Node04.St SB :=
+  Node04.run exEnv exCfg id (Node04.start genesis)
+    [.crashInInput (.timeout 0 .newHeight) 10 0 5 0, .replayNext 20, .crash 0, .replayNext 30]
+example : exComposed.sg.rel.map (fun r => (hrsOf r.sb, r.sb.ts, r.req.ts)) =
+    [((1, 0, 3), 20, 20), ((1, 0, 2), 20, 20), ((1, 0, 1), 10, 20)] := by decide
 
 end NonVacuity
 
